@@ -6,6 +6,9 @@ CHECKS = {
  "C05": dict(text="TLC checks exhaustively (small constants: all cut sets of 2-4 record streams, <=2 held segments, <=2 exact duplicates, every ISN/wrap position of a scaled sequence space) that the implementation-shaped reassembly model (Reasm.tla: dedupe, sort, contiguity test, two-pass framing as in session.py) satisfies the contract (records handed on in stream order, each once, all at quiescence, provenance = overlap set) when the two named deviations are disabled, and that each deviation violates it. TLC-generated schedules are replayed on real TLS connections of 8 cipher-state kinds through the working tree (end-to-end streams must equal what was sent) and the feed/release hook events of every run are validated against the contract in TLC (TraceReasm.tla).",
              note="Trusted: the reference TLS stack in /verif/wire (independent of tlexport; agrees with the unchanged tree on every suite x version), the observer in /verif/observe, TLC. Bounds: streams of <= 4 records per schedule, MaxSeg <= 8 cells, scaled modulus for the wrap. Known findings KF_GapAccept / KF_SeqWrap are excluded from the environment by predicate and replayed as witnesses.",
              technique="TLA+ model checking (TLC) of Reasm.tla + replay of TLC behaviours into the implementation + TLC trace validation of hook events", ref="6-C05"),
+ "C01": dict(text="TLC checks exhaustively that the implementation-shaped session automaton (TlsSession.tla: ClientHello/ServerHello/CCS/Finished handling, generate_keys gates, per-direction AEAD sequence number / CBC residue / RC4 position / TLS 1.3 key switch exactly as coded) exports exactly the application records sent, for 5 versions x 4 cipher families x full/abbreviated x grouping x hs-secrets-in-log x padding x tickets x every history of <= 4 application records (direction order, 4 length classes). TLC-generated behaviours are concretized with concrete suites (quick: 3 per (version, family); thorough: every valid (version, suite) pair), session-id lengths, extension sets, extension-shaped certificate bytes, CBC padding lengths and segmentations, run through the working tree and compared with the model's prediction; decrypt/keyswitch hook events of every run are validated in TLC against the record-layer contract (TraceTls.tla: each success consumes the next record under the sender's epoch/sequence number/CBC residue and yields its plaintext).",
+             note="Trusted: reference TLS stack in /verif/wire (RFC vectors, agreement with the unchanged tree), observer, TLC. Not claimed (as in the property): compression, renegotiation, KeyUpdate, 0-RTT, HRR, data after alert, 4-tuple reuse. Camellia-GCM suites are not in TLExport's table and not exercised.",
+             technique="TLA+ model checking (TLC) of TlsSession.tla + replay of TLC behaviours into the implementation + TLC trace validation of decrypt events", ref="6-C01"),
 }
 NA_REASON = "check not built yet in this round (planned: see DESIGN.md section 6)"
 def main():
